@@ -188,6 +188,17 @@ func c05(p *model.Prog, r *report.Result) {
 	c05Count(p, r)
 	c05Gate(p, r)
 	c05Split(p, r)
+	r.Rule("C05.NILF", "fields that lal itself compares with nil somewhere (per-input state cleared when the input leaves, outputs created on demand) are, in every function reachable from the media entry points of the group, dereferenced only behind the non-nil edge of a test of the same field expression or a dominating non-nil store; reviewed exceptions are listed per (function, field)")
+	{
+		reach := p.Reachable(fanoutRoots(p), false, func(f *ssa.Function) bool { return model.IsLal(f) })
+		var scope []*ssa.Function
+		for f := range reach {
+			if inFiles(p, f, c05Files) {
+				scope = append(scope, f)
+			}
+		}
+		nilFieldRule(p, r, "C05.NILF", scope, c05NilExceptions, 10, 10)
+	}
 	r.Count("timestamp_driven_loops", nLoops)
 	if nLoops < 1 {
 		r.Bad("C05.LOOP", "floor", "", "no timestamp-driven loop found (DummyAudioFilter.handleDummyStage expected)")
@@ -197,4 +208,10 @@ func c05(p *model.Prog, r *report.Result) {
 func isInteger(t types.Type) bool {
 	b, ok := t.Underlying().(*types.Basic)
 	return ok && b.Info()&types.IsInteger != 0
+}
+
+var c05NilExceptions = []nilFieldException{
+	{"logic.Group.OnFragmentOpen", "Group.rtmp2MpegtsRemuxer", "reached only from hls.Muxer.openFragment, which runs inside the remuxer's own callback chain (onFrame -> Group.OnTsPackets -> Muxer.FeedMpegts); delIn clears the field only after Dispose() returned"},
+	{"logic.Group.feedWaitRtspSubSessions", "Group.sdpCtx", "both callers (OnSdp, onSdpFromRemux) assign group.sdpCtx = &sdpCtx in the statement before the call"},
+	{"rtprtcp.RtpPacketList.PopFirst", "RtpPacketListItem.Next", "documented contract 'caller guarantees the list is not empty'; Size bookkeeping decided by C13.LIST / C07.R3"},
 }
